@@ -19,7 +19,7 @@ LEVEL_TEXT = ("every crash prefix and every single injected transport error (all
               "directly or after an explicit break; a failed acquisition does not leave the lock held by the failing process")
 RULE = ("case = (scenario, fault kind, position); all positions of each scenario are enumerated over the case indices; non-trivial = every case (each is a distinct "
         "crash/fault position); distinct = (scenario, kind, position, op name)")
-CASES = {"quick": 24, "thorough": 72}
+CASES = {"quick": 30, "thorough": 90}
 BUDGET_S = {"quick": 45, "thorough": 400}
 MIN_EVALS = {"quick": 100, "thorough": 400}
 FLOORS = {"crash_states": 40, "fault_runs": 40, "judge_acquire": 80, "memory_states": 40}
@@ -27,7 +27,8 @@ EXHAUSTIVE = {"quick": True, "thorough": True}
 ASSUMPTIONS = ["crash model as C04: stop between transport operations, completed ops persist, plus truncated/half info file for the non-atomic info write",
                "error model: one TransportError/PathError-class exception raised instead of performing the k-th operation"]
 
-SCENARIOS = ["attempt", "attempt-unlock", "contended-attempt", "break", "break-then-attempt", "wait-contended", "unlock-after-break", "lockable-files"]
+SCENARIOS = ["attempt", "attempt-unlock", "contended-attempt", "break", "break-then-attempt", "wait-contended", "unlock-after-break", "lockable-files",
+             "token-stale-then-lock", "token-valid"]
 
 
 class MemSite:
@@ -142,6 +143,29 @@ def _run(scen, world, root, state):
             ld.unlock()
         except errors.LockBroken:
             state["broken"] = True
+    elif scen == "token-stale-then-lock":
+        # a lock_write with a token that is not the holder's nonce is a failed acquisition; the same object is then
+        # used normally and everything is unlocked: the lock must end free
+        try:
+            ld.lock_write(token=b"not-the-nonce-on-disk")
+            state["token_accepted"] = True
+        except errors.TokenMismatch:
+            state["token_mismatch"] = True
+        finally:
+            state["held_after_failed_token_lock"] = bool(ld.is_held) and not state.get("token_accepted")
+        ld.lock_write()
+        ld.unlock()
+        state["expect_free"] = True
+    elif scen == "token-valid":
+        # another object of this process holds the lock; this one joins with the right token and leaves again
+        first = _ld(root, world)
+        tok = first.lock_write()
+        ld.lock_write(token=tok)
+        ld.unlock()
+        state["expect_held_by"] = tok
+        first.unlock()
+        state["expect_held_by"] = None
+        state["expect_free"] = True
     elif scen == "lockable-files":
         from breezy.bzr.lockable_files import LockableFiles
         from breezy.lockdir import LockDir
@@ -193,12 +217,29 @@ def _judge(ctx, snap, label, detail):
     return
 
 
+def _post(ctx, scen, state, root, raised, label, detail):
+    """What the actor believes against what is on disk, for the token scenarios."""
+    if state.get("held_after_failed_token_lock"):
+        ctx.fail("fault:failed-acquire-believes-held:token", "%s: lock_write(token=<wrong>) failed but is_held is True" % label, detail)
+    if state.get("token_accepted"):
+        ctx.fail("token:wrong-token-accepted", "%s: lock_write accepted a token that is not the nonce on disk" % label, detail)
+    # (only without an injected fault: unlock() swallows a transport error by design - @only_raises - and then leaves the
+    # lock held with readable info, which is the recoverable state the statement allows)
+    if raised is None and state.get("expect_free") and label.endswith("/unfaulted"):
+        ctx.count("end_free_checked")
+        info = _ld(root).peek()
+        if info is not None:
+            ctx.fail("end:lock-left-held-after-all-unlocks", "%s: every holder unlocked but the lock is still held (nonce %r)" % (label, info.nonce), detail)
+
+
 def _dry(ctx, scen):
     root = os.path.join(ctx.tmp("c27d"), "l")
     _prepare(root, scen)
     w = instr.World(root)
+    state = {}
     with w.active(), w.actor("A"):
-        _run(scen, w, root, {})
+        _run(scen, w, root, state)
+    _post(ctx, scen, state, root, None, "%s/unfaulted" % scen, {"scenario": scen})
     return w
 
 
@@ -279,6 +320,7 @@ def fault_enum(ctx, scen):
                 mine = getattr(ld, "nonce", None)
                 if disk is not None and mine is not None and disk.nonce == mine:
                     ctx.fail("fault:failed-acquire-left-lock-held:%s" % opname, "%s: acquisition raised %r but the lock on disk is held with the failing process's nonce" % (label, raised), detail)
+            _post(ctx, scen, state, root, raised, label, detail)
             _judge(ctx, root, label, detail)
             ctx.note(("fault", scen, k, kname), nontrivial=True,
                      sample={"scenario": scen, "fault_position": k, "op": opname, "error": kname, "outcome": repr(raised)[:80]} if k == 3 else None)
